@@ -274,8 +274,8 @@ func c20Run(s *Shard) {
 			continue
 		}
 		for bi, b := range alpha {
-			if quick(s) && a.Class == "valid" && b.Class == "valid" && i%4 != 0 {
-				continue // valid x valid pairs are C09's all-pairs clause; keep a quarter here in the quick tier
+			if quick(s) && a.Class == "valid" && b.Class == "valid" && (i%8 != 0 || bi%2 != 0) {
+				continue // valid x valid pairs are C09's all-pairs clause; keep a sixteenth here in the quick tier
 			}
 			if quick(s) && strings.HasPrefix(a.Name, "malformed/prefix-") && i%6 != 0 && bi%9 != 0 {
 				continue // most truncated bodies as first element meet every ninth second request in the quick tier
